@@ -3,5 +3,6 @@ CONSTANTS
   Impl = "asis"
   Reps <- MCReps
   Wide = FALSE
+  Limits = {2097152, 5242880, 10485760}
 INVARIANTS NoPanic
 CHECK_DEADLOCK FALSE
